@@ -79,6 +79,12 @@ CHECKS["C15"] = dict(
     text="TLC enumerates the structured mutation space (72 stage/type/mutation rows); each row is concretised with seeded fillings and run against the real record decoders and the real endpoints (RecvManifestMultiStream with a scripted sender, SendManifestMultiStream with a scripted receiver). Oracle on the real behaviour: no panic or crash (child exit status), return within 4 s after the input ended, heap growth bounded by the bytes received (plus a 3 GiB address-space limit), and no success for a stream the grammar rejects.",
     note="trusted: TLC as enumerator, the scripted peers; structure-aware mutation, not arbitrary byte strings")
 
+CHECKS["C07"] = dict(
+    category="exploration", design_ref="5.3",
+    technique="TLA+ spec Paths.tla (lexical path algebra, the four peer-controlled fields with sinks and guards) enumerated exhaustively with TLC; each case is a hostile scripted sender against the real receiver inside a jail with before/after snapshots",
+    text="TLC enumerates every segment sequence up to 2 (thorough 3) segments over 7 segment classes for each of manifest.root, directory rel_path, file rel_path / FileBegin and item.id, in both root-directory modes with resume on and off, and checks that the guard rejects the value or the cleaned target stays below the output directory (the pinned commit's guards are refuted). Every case is then transmitted by a scripted sender to the real RecvManifestMultiStream; nothing around the output directory may be created, modified or deleted.",
+    note="trusted: TLC as enumerator and oracle of the guard decision; the snapshot of the jail; Unix semantics")
+
 NOT_APPLICABLE = {}
 
 HOOK_COMMITS = ["6b59734", "6335744"]
